@@ -1,4 +1,5 @@
 import CotengraVerif.Lemmas.SimsProc
+import CotengraVerif.Lemmas.SimsLeaf
 import CotengraVerif.Lemmas.SlicerTree
 import CotengraVerif.Lemmas.HyperGraphForest
 
@@ -376,6 +377,48 @@ theorem reported_flops_partial (n : Net) (leafL : Nat → PLegs) (t : BT) (hd : 
     `compute_simplified` -/
 def procLeaf (n : Net) (B : List Ix) (i : Nat) : PLegs :=
   Proc.simplified n.app ((Proc.initLegs (n.term i)).filter (fun kv => !B.contains kv.1))
+
+/-- **procLeaf_spec.** For *every* term (repeated, traced, dangling indices included) the
+    processor's leaf legs after `remove_ix` of the batch indices and `compute_simplified` hold the
+    counts of the tree's leaf legs, strictly sorted and positive: `LeafSpec` is met by the real
+    leaf computation, so the processor theorems hold without any guard on the network. -/
+theorem procLeaf_spec (n : Net) (B : List Ix) (i : Nat) : LeafSpec n B (procLeaf n B) i := by
+  obtain ⟨hs, hp, ht⟩ := Proc.initLegs_spec (n.term i)
+  have hs' : Proc.SortedLE ((Proc.initLegs (n.term i)).filter (fun kv => !B.contains kv.1)) :=
+    List.Pairwise.sublist List.filter_sublist hs
+  have hp' : Pos ((Proc.initLegs (n.term i)).filter (fun kv => !B.contains kv.1)) := pos_filter _ _ hp
+  obtain ⟨g, so, po⟩ := Proc.simplified_spec n.app _ hs' hp'
+  refine ⟨so, po, ?_⟩
+  intro x
+  show Legs.get (Proc.simplified n.app _) x = _
+  rw [g x, Proc.total_filter_key _ (fun k => !B.contains k) x, ht x, get_leafLegs]
+  have hocc : occ (n.termRm B i) x = if (!B.contains x) = true then (n.term i).count x else 0 := by
+    unfold occ termRm
+    by_cases hb : B.contains x = true
+    · simp only [hb, Bool.not_true, Bool.false_eq_true, if_false]
+      apply List.count_eq_zero_of_not_mem
+      intro hm
+      have := (List.mem_filter.1 hm).2
+      rw [hb] at this
+      exact absurd this (by simp)
+    · have hb' : B.contains x = false := by simpa using hb
+      simp only [hb', Bool.not_false, if_true]
+      exact List.count_filter (by rw [hb']; rfl)
+  rw [hocc]
+
+/-- `proc_eq_tree` for the processor's own leaf computation: no hypothesis on the network -/
+theorem proc_eq_tree_real (n : Net) (B : List Ix) (l r : BT) (hd : (BT.node l r).leaves.Nodup)
+    (hb : ∀ i ∈ (BT.node l r).leaves, i < n.inputs.length) :
+    Proc.size n.size (procLegs n (procLeaf n B) (.node l r)) = n.nodeSize B (.node l r) ∧
+    procFlops n (procLeaf n B) (.node l r) = n.nodeFlops B (.node l r) ∧
+    (∀ x, x ∈ keys (procLegs n (procLeaf n B) (.node l r)) ↔ n.Surv B (.node l r) x) :=
+  proc_eq_tree n B (procLeaf n B) l r hd hb (fun i _ => procLeaf_spec n B i)
+
+/-- `reported_flops_batch` for the processor's own leaf computation -/
+theorem reported_flops_batch_real (n : Net) (B : List Ix) (hB : B.Nodup) (hall : ∀ ix ∈ B, OnAll n ix)
+    (t : BT) (hd : t.leaves.Nodup) (hb : ∀ i ∈ t.leaves, i < n.inputs.length) :
+    (n.stats [] [] t).flops = n.prodSizes B * procTotal n (procLeaf n B) t :=
+  reported_flops_batch n B hB hall (procLeaf n B) t hd hb (fun i _ => procLeaf_spec n B i)
 
 def cexNet : Net := { inputs := [[0, 1], [0, 2], [0, 1, 2]], output := [], sizes := [(0, 2), (1, 3), (2, 3)] }
 def cexTree : BT := .node (.node (.leaf 0) (.leaf 1)) (.leaf 2)
